@@ -17,6 +17,7 @@ from . import lib
 from . import expr_common as X
 from . import expr_parse as XP
 from . import expr_ref as XR
+from . import expr_filters as XF
 
 RULE = ("type-directed random expression trees (depth <= 4 quick / 6 thorough) over a value pool with ints, strings, "
         "Markup, lists, tuples, dicts, None, undefined names, opaque callables and probe objects having an attribute AND "
@@ -35,7 +36,12 @@ RULE = ("type-directed random expression trees (depth <= 4 quick / 6 thorough) o
         "variable of {% set %}, render / render_async, generate / generate_async, and one compiled expression called three times with different data. "
         "Filter-environment stream (oracle only): ~130 invocation shapes of the builtin filters and tests (every filter with an async implementation, keyword and positional "
         "arguments, generators as input) x ==-equal differently typed argument values, each evaluated in plain / async / sandboxed / async sandboxed / immutable / "
-        "optimized=False / async unoptimized / overlay / native environments: all nine must agree.")
+        "optimized=False / async unoptimized / overlay / native environments: all nine must agree. Axis stream: EVERY name of the reference data pool "
+        "(incl. an object whose __getattr__ answers every name, a dot-dict record) x 60 consumers (iterating filters, attribute, subscript, slice, call, "
+        "argument, * and ** argument, tests, containment, truth, string conversion, arithmetic, comparison, collection member) under the async "
+        "environment and one more kind in rotation, against the reference evaluator. Filter-reference stream: 24 builtin filters with optional arguments "
+        "against independent statements of their documented behaviour, every optional argument absent / None / every falsy-but-not-None value / truthy, "
+        "keyword and positional, literal (foldable) and in a variable, in plain / async / sandboxed / optimized=False / async sandboxed environments.")
 
 MODES = ["default", "async", "sandbox", "noopt"]
 
@@ -82,8 +88,8 @@ def compare_case(ctx, e, src, tsrc, outs, datas, data_seed, modes=MODES):
         if opaque:
             continue
         ok = True
-        # ---- value through compile_expression (sync environments)
-        if mode != "async":
+        # ---- value through compile_expression (every environment; in async mode the sync call drives the async render function)
+        if True:
             del log[:]
             real = X.real_value(env, src, data)
             rlog = X.canon_real_log(log)
@@ -275,9 +281,11 @@ def run(ctx):
     # ---------------- histories in one environment (oracle only)
     run_history(ctx)
     run_filter_envs(ctx)
+    XF.run_filter_ref(ctx)
 
     # ---------------- reference evaluator over real Python values x environment kinds x undefined classes x entry points (oracle only)
     XR.run_ref_stream(ctx)
+    XR.run_axis_stream(ctx)
 
     # ---------------- K-eval / K-gen / oracle
     depth = ctx.size(4, 6)
